@@ -12,6 +12,7 @@ import (
 type C20Emb struct {
 	Level int8
 	Inner struct{ K string }
+	Other struct{ N int8 } // a second nested struct, of another type
 	Tags  []string
 }
 
